@@ -269,7 +269,17 @@ func routingSweeps(r rm.Router, tier string, lite bool) []sweep {
 	hreqs := crossReqs(hpaths, []string{"GET", "POST", "PUT", "DELETE"}, hu.Combos(), false)
 	out = append(out, sweep{"H1", r, singles(ha), hreqs})
 	if !lite && (r == rm.Curly || thorough) {
-		out = append(out, sweep{"H2", r, pairs(ha), hreqs})
+		// pairs: declarations without an AllowedMethodsWithoutContentType override in the quick tier
+		ha2 := ha
+		if !thorough {
+			ha2 = nil
+			for _, a := range ha {
+				if len(a.R.NoCT) == 0 {
+					ha2 = append(ha2, a)
+				}
+			}
+		}
+		out = append(out, sweep{"H2", r, pairs(ha2), hreqs})
 	}
 	// (X) cross sweep: 2-route tables × everything over halved alphabets
 	if !lite {
